@@ -182,3 +182,40 @@ func (c *Ctx) checkMacroCallsAlwaysExpand(r *Report, rule string) {
 		r.Undecided("%s: no call of isMacroCall found in the callback of ExpandMacros", rule)
 	}
 }
+
+// checkMacroDefinitionTokens: rule C13.R11.
+//
+// The evaluator treats `name = value` and `name := value` as assignments (the infix arm of evalInternal
+// tests both tokens). The definition sweep of DefineMacros must recognise a macro literal under both: in
+// eval.isAssign the token type of the expression is compared with ASSIGN and with DEFINE (directly or through
+// token.ByType).
+func (c *Ctx) checkMacroDefinitionTokens(r *Report, rule string) {
+	fn := c.SSAFn(c.Fn("eval", "isAssign"))
+	want := map[string]int64{}
+	for _, n := range []string{"ASSIGN", "DEFINE"} {
+		k, _ := constInt64(c.Const("token", n))
+		want[n] = k
+	}
+	seen := map[int64]bool{}
+	byType := c.Fn("token", "ByType")
+	eachInstr(fn, func(in ssa.Instruction) {
+		switch x := in.(type) {
+		case *ssa.BinOp:
+			for _, v := range []ssa.Value{x.X, x.Y} {
+				if k, ok := constInt(v); ok {
+					seen[k] = true
+				}
+			}
+		case *ssa.Call:
+			if calleeObj(x) == byType {
+				if k, ok := constInt(x.Common().Args[0]); ok {
+					seen[k] = true
+				}
+			}
+		}
+	})
+	for _, n := range []string{"ASSIGN", "DEFINE"} {
+		r.Check(seen[want[n]], rule, ssaFuncName(fn), "a macro literal assigned with the "+n+" token is a definition", c.Pos(fn.Pos()),
+			"isAssign does not test the "+n+" token: `m "+map[string]string{"ASSIGN": "=", "DEFINE": ":="}[n]+" macro(...)` stays in the program and is evaluated (unknown node type *ast.MacroLiteral), its calls are never expanded")
+	}
+}
